@@ -246,7 +246,7 @@ Section Core.
 
   (* ---------------------------------------------------------------- push *)
   Definition push_tail (v : nat) (value : elem) : M unit :=
-    l <- len v ;; d <- data cfg v ;; slot_write cfg (padd cfg d l) value ;;; set_len v (l + 1).
+    l <- len v ;; d <- data cfg v ;; slot_write cfg (padd cfg d l) value ;;; add_len v 1.
 
   Lemma push_tail_spec s v b bl e :
     vec_at s v b bl -> block_ok cfg bl -> h_len bl < h_cap bl ->
@@ -269,7 +269,7 @@ Section Core.
       assert (R : 0 <= h_len bl < h_cap bl) by lia.
       rewrite (bind_val _ _ _ _ _ (slot_write_at cfg s b bl off (h_len bl) e Hcfg (proj2 Hv) Hb Hco R)).
       fold bl1. fold s1.
-      rewrite (set_len_at cfg s1 v b bl1 (h_len bl + 1) Hcfg Hv1 Hb1). reflexivity.
+      rewrite (add_len_at cfg s1 v b bl1 1 Hcfg Hv1 Hb1). reflexivity.
     - apply vec_at_upd with (bl := bl1). assumption.
     - eapply frame_trans; apply frame_upd.
     - apply block_ok_with_len with (bl := bl1); [assumption|simpl; lia].
